@@ -454,7 +454,13 @@ func (w *World) Gen(r *rand.Rand) Action {
 				if l := w.topLeader(); l != nil && r.Intn(2) == 0 {
 					at = l.id
 				}
-				return Action{K: "read", N: at, D: []byte(fmt.Sprintf("r%d", w.seq))}
+				if prev, ok := w.lastRead[at]; ok && r.Intn(20) == 0 {
+					// duplicate request context at the same node
+					return Action{K: "read", N: at, D: prev}
+				}
+				ctx := []byte(fmt.Sprintf("r%d", w.seq))
+				w.lastRead[at] = ctx
+				return Action{K: "read", N: at, D: ctx}
 			case c < p.WRead+p.WPropose:
 				at := n
 				if l := w.topLeader(); l != nil && r.Intn(3) != 0 {
